@@ -5,7 +5,7 @@ import json, os, re, shutil, subprocess, sys, tempfile, time, glob
 
 VERIF = os.path.dirname(os.path.dirname(os.path.abspath(__file__)))
 SPEC = os.path.join(VERIF, "spec")
-HARNESS = os.path.join(VERIF, "harness")
+HARNESS = os.environ.get("VERIF_HARNESS") or os.path.join(VERIF, "harness")
 REPO = os.environ.get("VERIF_REPO", "/repo")
 GOENV = dict(GOFLAGS="-mod=mod", GOPROXY="off", GOSUMDB="off", GOTOOLCHAIN="local")
 GO = os.environ.get("VERIF_GO", "go1.26")
@@ -203,3 +203,70 @@ def finish(prop, tier, seed, t0, coverage, violations, assumptions, drift=None, 
     log("%s %s: %s (%.1fs) %s" % (prop, tier, "VIOLATION" if rc else "ok", time.time() - t0,
                                   json.dumps({k: v for k, v in coverage.items() if isinstance(v, (int, bool))})))
     return rc
+
+
+def _panic_site(out):
+    """Extract 'panic message @ first go-perun frame' from a crashed Go process' output."""
+    m = re.search(r"^(panic: .*|fatal error: .*)$", out, re.M)
+    msg = m.group(1)[:160] if m else "process died"
+    site = "?"
+    tail = out[m.start():] if m else out
+    fm = re.search(r"^(perun\.network/go-perun/\S+?)\((?:0x|\{|\.\.\.|\))", tail, re.M)
+    if fm:
+        site = fm.group(1).replace("perun.network/go-perun/", "")
+    return msg, site
+
+
+def run_supervised(binary, test, env, scratch, tag, total, prop, timeout=3000, max_crashes=60):
+    """Run a driver whose process can be killed by a panic of go-perun inside a goroutine: the driver writes its
+    progress (case index TAB description) before every case; after a crash the case in flight is recorded as a
+    violation (panic) and the driver is restarted behind it. Returns (list of driver results, crash violations)."""
+    results, crashes = [], []
+    start = 0
+    progress = os.path.join(scratch, "progress-%s" % tag)
+    violog = os.path.join(scratch, "viol-%s.jsonl" % tag)
+    for attempt in range(max_crashes + 1):
+        if start >= total:
+            break
+        for f in (progress,):
+            if os.path.exists(f):
+                os.remove(f)
+        out = os.path.join(scratch, "res-%s-%d.json" % (tag, attempt))
+        e = go_env()
+        e.update({k: str(v) for k, v in env.items()})
+        e.update(VERIF_OUT=out, VERIF_START=str(start), VERIF_PROGRESS=progress, VERIF_VIOL_LOG=violog)
+        e.setdefault("VERIF_REPLAY_DIR", os.path.join(scratch, "replays"))
+        p = subprocess.run(["timeout", str(timeout), binary, "-test.run", "^%s$" % test, "-test.timeout", "%ds" % (timeout + 60)],
+                           cwd=scratch, env=e, stdout=subprocess.PIPE, stderr=subprocess.STDOUT, text=True)
+        if p.returncode == 124:
+            raise Inconclusive("driver %s timed out" % test)
+        if p.returncode == 0 and os.path.exists(out):
+            with open(out) as f:
+                results.append(json.load(f))
+            break
+        # crashed: attribute to the case in flight
+        if not os.path.exists(progress):
+            log(p.stdout[-3000:])
+            raise Inconclusive("driver %s died before its first case (exit %d)" % (test, p.returncode))
+        idx, what = open(progress).read().split("\t", 1)
+        msg, site = _panic_site(p.stdout)
+        rp = os.path.join(scratch, "replays")
+        os.makedirs(rp, exist_ok=True)
+        rpf = os.path.join(rp, "%s-crash-%s-%s.txt" % (prop, tag, idx))
+        with open(rpf, "w") as f:
+            f.write("case %s: %s\n\n%s\n" % (idx, what, p.stdout[-6000:]))
+        crashes.append(dict(property=prop, kind="monitor", sig="panic|%s|%s" % (site, what.split("|")[0] if "|" in what else what),
+                            what="the client process panicked while handling case %s (%s): %s @ %s" % (idx, what, msg, site),
+                            replay=rpf, case=what))
+        start = int(idx) + 1
+    else:
+        raise Inconclusive("driver %s crashed more than %d times" % (test, max_crashes))
+    # violations logged durably by crashed runs (the result file of a crashed run is lost)
+    logged = []
+    if os.path.exists(violog):
+        for ln in open(violog):
+            try:
+                logged.append(json.loads(ln))
+            except ValueError:
+                pass
+    return results, crashes, logged
